@@ -161,6 +161,21 @@ Fixpoint run (fuel : nat) (cfg : jcfg) (srv : server) (rs : list req) : outcome 
       obind (run fuel cfg srv' tl) (fun '(srv'', l) => Ok (srv'', res :: l)))
   end.
 
+(* ---------- a clean stop and start of the server ---------- *)
+(* partition.Service.Shutdown syncs the last chunk of every journal (full chunks were synced when the writer moved on),
+   the restarted server finds every record it acknowledged confirmed in the chunk files: nothing but the confirmed
+   counts changes.  A history with clean restarts is a list of segments; the server is restarted between two segments
+   and after the last one. *)
+Definition restart (srv : server) : server := map (fun kj => (fst kj, flush (snd kj))) srv.
+
+Fixpoint run_segs (fuel : nat) (cfg : jcfg) (srv : server) (segs : list (list req)) : outcome (server * list wres) :=
+  match segs with
+  | [] => Ok (srv, [])
+  | sg :: tl =>
+      obind (run fuel cfg srv sg) (fun '(srv1, res) =>
+      obind (run_segs fuel cfg (restart srv1) tl) (fun '(srv2, l) => Ok (srv2, res ++ l)))
+  end.
+
 (* ---------- reading a partition back ---------- *)
 (* result event as the queriers build it: timestamp, message, the partition's tag line, fields as kv text *)
 Record revent := { rv_ts : Z; rv_msg : bytes; rv_tags : bytes; rv_flds : bytes }.
